@@ -1,12 +1,13 @@
-import BreezyVerif.Lemmas.C26Inv
+import BreezyVerif.Lemmas.C26Steal
+import BreezyVerif.Lemmas.C26Excl
 /-!
 C26 — directory locks provide mutual exclusion.
 
 All theorems are about `Sys.run (Sys.init cfg held) evs` for an arbitrary event
 list `evs` (every interleaving of every program of every locker, with crashes
 and injected transport faults), an arbitrary number of lockers (`Nat → Locker`),
-arbitrary per-locker identity / configuration `cfg` and an arbitrary initial
-`held/`.
+arbitrary per-locker identity / configuration `cfg` (host, LOGNAME, numeric uid,
+`locks.steal_dead`) and an arbitrary initial `held/`.
 -/
 namespace BreezyVerif.C26
 
@@ -19,8 +20,8 @@ theorem claim_on_disk (cfg : Nat → Cfg) (h0 : Option Dir) (evs : List Ev)
     (hev : ∀ e ∈ evs, e.noBreak = true) (hsteal : ∀ j, (cfg j).steal = false) (i : Nat)
     (hcl : (((Sys.init cfg h0).run evs).lk i).claims = true) :
     ownerOf ((Sys.init cfg h0).run evs).held = some i := by
-  have inv : Inv 0 ((Sys.init cfg h0).run evs) :=
-    (Inv.init 0 cfg h0).run evs (fun e he => noBreak_breaksOnlyBy 0 (hev e he))
+  have inv : Inv ((Sys.init cfg h0).run evs) :=
+    (Inv.init cfg h0).run_single (Who.init 0 cfg h0) evs (fun e he => noBreak_breaksOnlyBy 0 (hev e he))
       (fun j hj => by simp [Sys.init, hsteal j] at hj)
   have nb : NoBreak ((Sys.init cfg h0).run evs) :=
     NoBreak.run ⟨fun _ => rfl, rfl, rfl⟩ evs hev (by simpa [Sys.init] using hsteal)
@@ -60,7 +61,8 @@ theorem mutex_single_breaker_partial (b : Nat) (cfg : Nat → Cfg) (h0 : Option 
     (hi : (((Sys.init cfg h0).run evs).lk i).held = true) (hic : ((Sys.init cfg h0).run evs).crashed i = false)
     (hj : (((Sys.init cfg h0).run evs).lk j).held = true) (hjc : ((Sys.init cfg h0).run evs).crashed j = false) :
     i = j := by
-  have inv : Inv b ((Sys.init cfg h0).run evs) := (Inv.init b cfg h0).run evs hev hsteal
+  have inv : Inv ((Sys.init cfg h0).run evs) :=
+    (Inv.init cfg h0).run_single (Who.init b cfg h0) evs hev hsteal
   have a := inv.claim i hal (by simp [Locker.claims, hi])
   have c := inv.claim j hal (by simp [Locker.claims, hj])
   simp only [hic, hjc, Bool.false_eq_true, false_and, or_false] at a c
@@ -80,7 +82,8 @@ theorem break_removes_examined_partial (b : Nat) (cfg : Nat → Cfg) (h0 : Optio
       ((Sys.init cfg h0).run evs).crashed x.owner = true ∧
       (((Sys.init cfg h0).run evs).step (.step i)).held = none ∧
       ((((Sys.init cfg h0).run evs).step (.step i)).lk i).tmp = some (some (.ok x)) := by
-  have inv : Inv b ((Sys.init cfg h0).run evs) := (Inv.init b cfg h0).run evs hev hsteal
+  have inv : Inv ((Sys.init cfg h0).run evs) :=
+    (Inv.init cfg h0).run_single (Who.init b cfg h0) evs hev hsteal
   have h := inv.exp i x hal (by simp [hpc, Pc.expects])
   refine ⟨h.1, h.2, ?_, ?_⟩ <;> simp [Sys.step, hlive, hpc, lstep, h.1, okDir]
 
@@ -113,25 +116,248 @@ theorem break_race_witness :
     let s := (Sys.init cfg).run evs
     s.brokeAlive = false ∧ s.crashed 2 = false ∧ s.crashed 3 = false ∧
       (s.lk 2).held = true ∧ (s.lk 3).held = true ∧ (s.lk 1).last = .mismatch ∧
-      ownerOf s.held = some 3 := by
+      ownerOf s.held = some 3 ∧
+      -- the break windows of lockers 1 and 2 overlap: exactly what `…_exclusive_partial` excludes
+      exclusiveBreaks 4 (Sys.init cfg) evs = false := by
   decide +kernel
 
+/-! ### any number of breakers, as long as their break windows do not overlap
+
+The break window of a `force_break x` is the time from the decision to break `x`
+until `held/` has been renamed away.  `exclusiveBreaks n s evs` (decidable) says
+that in no state the run passes through two of the lockers `< n` are inside a
+window.  `break_race_witness` is a run where they do overlap. -/
+
+/-- **Mutual exclusion with any number of breakers (partial: non-overlapping break windows).**
+Any number of lockers may call `break_lock` or steal; if no two of them are ever inside a break
+window at the same time and no break was decided against a live holder, at most one live locker
+believes it holds the lock.  Missing for the full statement: overlapping windows — there the
+code fails (`break_race_witness`).  `mutex_single_breaker_partial` is the special case of one breaker
+(for which no bound `n` on the lockers is needed). -/
+theorem mutex_exclusive_breaks_partial (n : Nat) (cfg : Nat → Cfg) (h0 : Option Dir) (evs : List Ev)
+    (hn : ∀ e ∈ evs, e.locker < n) (hex : exclusiveBreaks n (Sys.init cfg h0) evs = true)
+    (hal : ((Sys.init cfg h0).run evs).brokeAlive = false) (i j : Nat)
+    (hi : (((Sys.init cfg h0).run evs).lk i).held = true) (hic : ((Sys.init cfg h0).run evs).crashed i = false)
+    (hj : (((Sys.init cfg h0).run evs).lk j).held = true) (hjc : ((Sys.init cfg h0).run evs).crashed j = false) :
+    i = j := by
+  have inv : Inv ((Sys.init cfg h0).run evs) :=
+    (Inv.init cfg h0).run evs (excl_prefixes (Quiet.init n cfg h0) evs hn hex)
+  have a := inv.claim i hal (by simp [Locker.claims, hi])
+  have c := inv.claim j hal (by simp [Locker.claims, hj])
+  simp only [hic, hjc, Bool.false_eq_true, false_and, or_false] at a c
+  rw [a] at c; exact Option.some.inj c
+
+/-- **`force_break` removes exactly the examined lock (partial: non-overlapping break windows)**, for any
+number of breakers: whenever a `force_break x` is about to rename `held/` away, `held/` still
+carries the info `x` that was examined, its holder is dead, and the rename removes precisely
+that directory. -/
+theorem break_removes_examined_exclusive_partial (n : Nat) (cfg : Nat → Cfg) (h0 : Option Dir) (evs : List Ev)
+    (hn : ∀ e ∈ evs, e.locker < n) (hex : exclusiveBreaks n (Sys.init cfg h0) evs = true)
+    (hal : ((Sys.init cfg h0).run evs).brokeAlive = false) (i : Nat) (x : Nonce) (ret : Bool)
+    (hpc : (((Sys.init cfg h0).run evs).lk i).pc = .bRename x ret)
+    (hlive : ((Sys.init cfg h0).run evs).crashed i = false) :
+    ((Sys.init cfg h0).run evs).held = some (some (.ok x)) ∧
+      ((Sys.init cfg h0).run evs).crashed x.owner = true ∧
+      (((Sys.init cfg h0).run evs).step (.step i)).held = none ∧
+      ((((Sys.init cfg h0).run evs).step (.step i)).lk i).tmp = some (some (.ok x)) := by
+  have inv : Inv ((Sys.init cfg h0).run evs) :=
+    (Inv.init cfg h0).run evs (excl_prefixes (Quiet.init n cfg h0) evs hn hex)
+  have h := inv.exp i x hal (by simp [hpc, Pc.expects])
+  refine ⟨h.1, h.2, ?_, ?_⟩ <;> simp [Sys.step, hlive, hpc, lstep, h.1, okDir]
+
+/-- **`unlock` releases only its own lock (partial: non-overlapping break windows)**: whenever a live
+locker's `unlock` is about to rename `held/` away (after its `confirm`), `held/` is still the lock of
+that locker — nobody's break and re-acquisition slipped in between — provided no break was decided
+against a live holder. -/
+theorem unlock_removes_own_exclusive_partial (n : Nat) (cfg : Nat → Cfg) (h0 : Option Dir) (evs : List Ev)
+    (hn : ∀ e ∈ evs, e.locker < n) (hex : exclusiveBreaks n (Sys.init cfg h0) evs = true)
+    (hal : ((Sys.init cfg h0).run evs).brokeAlive = false) (i : Nat)
+    (hpc : (((Sys.init cfg h0).run evs).lk i).pc = .uRename)
+    (hlive : ((Sys.init cfg h0).run evs).crashed i = false) :
+    ownerOf ((Sys.init cfg h0).run evs).held = some i := by
+  have inv : Inv ((Sys.init cfg h0).run evs) :=
+    (Inv.init cfg h0).run evs (excl_prefixes (Quiet.init n cfg h0) evs hn hex)
+  have hh := inv.need i (by simp [hpc, Pc.needsHeld])
+  rcases inv.claim i hal (by simp [Locker.claims, hh]) with h | ⟨h, _⟩
+  · exact h
+  · simp [hlive] at h
+
+example :
+    let cfg : Nat → Cfg := fun _ => ⟨1, 1, false⟩
+    let evs : List Ev := [.start 0 .attempt, .step 0, .step 0, .step 0, .step 0, .start 0 .unlock, .step 0]
+    (∀ e ∈ evs, e.locker < 1) ∧ exclusiveBreaks 1 (Sys.init cfg) evs = true ∧
+      (((Sys.init cfg).run evs).lk 0).pc = .uRename := by
+  decide +kernel
+
+/-- non-vacuity: two different breakers one after the other — 0 acquires and dies, stealer 1 takes over (first
+break) and dies, the user of locker 2 breaks 1's lock with `break_lock` (second break, passing through
+`bRename`), then 3 acquires; all hypotheses hold and 3 is the only live holder -/
+example :
+    let cfg : Nat → Cfg := fun i => ⟨1, 1, i == 1 || i == 3⟩
+    let evs : List Ev := [.start 0 .attempt, .step 0, .step 0, .step 0, .step 0, .crash 0,
+      .start 1 .attempt, .step 1, .step 1, .step 1, .step 1, .step 1, .step 1, .step 1, .step 1, .step 1,
+      .step 1, .step 1, .crash 1,
+      .start 2 .brk, .step 2, .step 2]
+    let more : List Ev := [.step 2, .step 2, .step 2, .step 2,
+      .start 3 .attempt, .step 3, .step 3, .step 3, .step 3]
+    (∀ e ∈ evs ++ more, e.locker < 4) ∧ exclusiveBreaks 4 (Sys.init cfg) (evs ++ more) = true ∧
+      ((Sys.init cfg).run (evs ++ more)).brokeAlive = false ∧ ((Sys.init cfg).run (evs ++ more)).breaks = 2 ∧
+      (((Sys.init cfg).run evs).lk 2).pc = .bRename ⟨1, 1⟩ false ∧
+      (((Sys.init cfg).run (evs ++ more)).lk 2).last = .broken ∧
+      (((Sys.init cfg).run (evs ++ more)).lk 3).held = true ∧
+      (((Sys.init cfg).run (evs ++ more)).lk 1).held = true ∧ ((Sys.init cfg).run (evs ++ more)).crashed 1 = true := by
+  decide +kernel
+
+/-! ### the dead-holder decision: `kill(pid, 0)` errno → dead? -/
+
+/-- `is_local_pid_dead` says "dead" for exactly one outcome of `kill(pid, 0)`: `ESRCH`.
+`Ok`, `EPERM` (the process exists but belongs to another uid) and every other
+errno mean "not known dead". -/
+theorem pid_dead_iff_esrch (r : KillRes) : pidDeadOf r = true ↔ r = .esrch :=
+  pidDeadOf_iff r
+
+/-- composed with the kernel's rule for signal 0: the verdict is "dead" iff the process does
+not exist — whatever the caller's permission to signal it -/
+theorem pid_dead_iff_process_gone (procExists permitted : Bool) :
+    pidDeadOf (killZero procExists permitted) = true ↔ procExists = false := by
+  rw [pidDeadOf_killZero]; cases procExists <;> simp
+
+/-- the three outcomes of the probe, each reachable: a live process we may signal, a live process
+of another uid, no process -/
+example : killZero true true = .ok ∧ killZero true false = .eperm ∧ killZero false false = .esrch ∧
+    pidDeadOf (killZero true false) = false := by decide
+
+/-- `is_lock_holder_known_dead` as evaluated by locker `me` on the lock `x` is true iff the recorded
+host is ours and is not `localhost`, the recorded LOGNAME is ours and the holder process is gone.
+In particular a live holder owned by a different uid (`EPERM`) is never stealable. -/
+theorem stealable_iff_ours_and_gone (cfg : Nat → Cfg) (crashed : Nat → Bool) (me : Nat) (x : Nonce) :
+    stealable cfg crashed me x = true ↔
+      ((cfg x.owner).host = (cfg me).host ∧ (cfg x.owner).host ≠ 0 ∧
+        (cfg x.owner).user.name = (cfg me).user.name ∧ crashed x.owner = true) :=
+  stealable_iff cfg crashed me x
+
+/-- non-vacuity, the cross-uid case: holder 0 runs as root with LOGNAME 1 and is alive; contender 1 has the
+same LOGNAME but uid 1000: the probe says `EPERM`, so not stealable; once 0 is gone it says `ESRCH` -/
+example :
+    let cfg : Nat → Cfg := fun i => if i = 0 then ⟨1, { name := 1, uid := 0 }, true⟩ else ⟨1, { name := 1, uid := 1000 }, true⟩
+    probe cfg (fun _ => false) 1 0 = .eperm ∧ stealable cfg (fun _ => false) 1 ⟨0, 1⟩ = false ∧
+      probe cfg (fun _ => false) 0 1 = .ok ∧
+      probe cfg (fun i => i == 0) 1 0 = .esrch ∧ stealable cfg (fun i => i == 0) 1 ⟨0, 1⟩ = true := by
+  decide
+
 /-- a steal (`force_break` called from `_handle_lock_contention`) starts only when the examined holder's
-recorded host is ours and is not `localhost`, its user is ours, its process is dead, and
-`locks.steal_dead` is on — in every state, hence in every reachable one -/
+recorded host is ours and is not `localhost`, its LOGNAME is ours, `kill(pid, 0)` on its pid answered
+`ESRCH`, i.e. its process no longer exists, and `locks.steal_dead` is on — in every state, hence in
+every reachable one -/
 theorem steal_only_if_dead_and_ours (id : Nat) (cfg : Nat → Cfg) (crashed : Nat → Bool) (me : Locker)
     (held : Option Dir) (x : Nonce) (h : (lstep id cfg crashed me held).1.pc = .bPeek x true) :
     held = some (some (.ok x)) ∧ (cfg id).steal = true ∧ (cfg x.owner).host = (cfg id).host ∧
-      (cfg x.owner).host ≠ 0 ∧ (cfg x.owner).user = (cfg id).user ∧ crashed x.owner = true := by
+      (cfg x.owner).host ≠ 0 ∧ (cfg x.owner).user.name = (cfg id).user.name ∧
+      probe cfg crashed id x.owner = .esrch ∧ crashed x.owner = true := by
   have := lstep_steal id cfg crashed me held x h
-  have hs := this.2.2.1
-  simp only [stealable, knownDead, Bool.and_eq_true, beq_iff_eq, Bool.not_eq_true',
-    beq_eq_false_iff_ne, ne_eq] at hs
-  exact ⟨this.2.1, this.2.2.2, hs.1.1.1.1, hs.1.1.1.2, hs.1.1.2, hs.2⟩
+  have hs := (stealable_iff cfg crashed id x).1 this.2.2.1
+  refine ⟨this.2.1, this.2.2.2, hs.1, hs.2.1, hs.2.2.1, ?_, hs.2.2.2⟩
+  rw [← pidDeadOf_iff, pidDeadOf_probe]; exact hs.2.2.2
 
 example : (lstep 1 (fun _ => ⟨1, 1, true⟩) (fun i => i == 0)
     { pc := .aPeekC, pend := some (some (.ok ⟨1, 1⟩)), nonce := 1 } (some (some (.ok ⟨0, 1⟩)))).1.pc
       = .bPeek ⟨0, 1⟩ true := by decide
+
+/-- **Steals are directed at dead holders only — run level.**  In every reachable state (any number of
+lockers, stealers and user breakers, any uids, any interleaving, crashes, faults), a locker that is
+inside a steal of the lock `x` (`force_break x` from `_handle_lock_contention`: before its peek,
+before its rename, before its re-check) has `locks.steal_dead` on, `x` records our host (not
+`localhost`) and our LOGNAME, and the process that took `x` no longer exists. -/
+theorem steal_in_progress_holder_gone (cfg : Nat → Cfg) (h0 : Option Dir) (evs : List Ev) (i : Nat) (x : Nonce)
+    (hpc : (((Sys.init cfg h0).run evs).lk i).pc.stealing = some x) :
+    (cfg i).steal = true ∧ (cfg x.owner).host = (cfg i).host ∧ (cfg x.owner).host ≠ 0 ∧
+      (cfg x.owner).user.name = (cfg i).user.name ∧ ((Sys.init cfg h0).run evs).crashed x.owner = true := by
+  have := (StealInv.init cfg h0).run evs i x hpc
+  simpa [StealOk, run_cfg, Sys.init] using this
+
+/-- **The steal policy never breaks the lock of a live holder.**  In every run without user
+`break_lock` — any number of lockers with `locks.steal_dead` on, any uids — no decision to break
+was ever taken against a holder whose process still existed. -/
+theorem policy_never_breaks_live_holder (cfg : Nat → Cfg) (h0 : Option Dir) (evs : List Ev)
+    (hev : ∀ e ∈ evs, e.noBreak = true) : ((Sys.init cfg h0).run evs).brokeAlive = false :=
+  ((NoUserBreak.init cfg h0).run evs hev).alive
+
+/-- **Mutual exclusion with one stealer** (no ghost hypothesis): without user `break_lock` and with at
+most one locker `b` that has `locks.steal_dead` on, at most one live locker believes it holds the
+lock — whatever the uids, crashes, faults and interleaving. -/
+theorem mutex_single_stealer (b : Nat) (cfg : Nat → Cfg) (h0 : Option Dir) (evs : List Ev)
+    (hev : ∀ e ∈ evs, e.noBreak = true) (hsteal : ∀ j, (cfg j).steal = true → j = b) (i j : Nat)
+    (hi : (((Sys.init cfg h0).run evs).lk i).held = true) (hic : ((Sys.init cfg h0).run evs).crashed i = false)
+    (hj : (((Sys.init cfg h0).run evs).lk j).held = true) (hjc : ((Sys.init cfg h0).run evs).crashed j = false) :
+    i = j :=
+  mutex_single_breaker_partial b cfg h0 evs (fun e he => noBreak_breaksOnlyBy b (hev e he)) hsteal
+    (policy_never_breaks_live_holder cfg h0 evs hev) i j hi hic hj hjc
+
+/-- **Mutual exclusion with any number of stealers (partial: non-overlapping break windows)**, without
+the ghost hypothesis: nobody calls `break_lock`, any lockers may have `locks.steal_dead` on -/
+theorem mutex_exclusive_stealers_partial (n : Nat) (cfg : Nat → Cfg) (h0 : Option Dir) (evs : List Ev)
+    (hn : ∀ e ∈ evs, e.locker < n) (hev : ∀ e ∈ evs, e.noBreak = true)
+    (hex : exclusiveBreaks n (Sys.init cfg h0) evs = true) (i j : Nat)
+    (hi : (((Sys.init cfg h0).run evs).lk i).held = true) (hic : ((Sys.init cfg h0).run evs).crashed i = false)
+    (hj : (((Sys.init cfg h0).run evs).lk j).held = true) (hjc : ((Sys.init cfg h0).run evs).crashed j = false) :
+    i = j :=
+  mutex_exclusive_breaks_partial n cfg h0 evs hn hex (policy_never_breaks_live_holder cfg h0 evs hev)
+    i j hi hic hj hjc
+
+/-- non-vacuity: two stealers (different uids) one after the other: 0 acquires and dies, 1 steals and dies,
+2 steals and holds; 3 contends in vain against live 2 -/
+example :
+    let cfg : Nat → Cfg := fun i => ⟨1, { name := 1, uid := i }, i == 1 || i == 2⟩
+    let steal (i : Nat) : List Ev := .start i .attempt :: List.replicate 11 (.step i)
+    let evs : List Ev := [.start 0 .attempt, .step 0, .step 0, .step 0, .step 0, .crash 0] ++ steal 1 ++
+      [.crash 1] ++ steal 2 ++ steal 3
+    (∀ e ∈ evs, e.locker < 4) ∧ (∀ e ∈ evs, e.noBreak = true) ∧ exclusiveBreaks 4 (Sys.init cfg) evs = true ∧
+      ((Sys.init cfg).run evs).breaks = 2 ∧ (((Sys.init cfg).run evs).lk 2).held = true ∧
+      ((Sys.init cfg).run evs).crashed 2 = false ∧ (((Sys.init cfg).run evs).lk 3).last = .contention := by
+  decide +kernel
+
+/-- non-vacuity (cross-uid): root holder 0 is alive, contender 1 (uid 1000, same LOGNAME, stealing on) gets
+`LockContention`; after 0 dies, 1 steals and holds; 2 (uid 2000) then contends against live 1 in vain -/
+example :
+    let cfg : Nat → Cfg := fun i => ⟨1, { name := 1, uid := 1000 * i }, i == 1⟩
+    let evs : List Ev := [.start 0 .attempt, .step 0, .step 0, .step 0, .step 0,
+      .start 1 .attempt, .step 1, .step 1, .step 1, .step 1, .step 1, .step 1, .crash 0,
+      .start 1 .attempt, .step 1, .step 1, .step 1, .step 1, .step 1, .step 1, .step 1, .step 1, .step 1,
+      .step 1, .step 1,
+      .start 2 .attempt, .step 2, .step 2, .step 2, .step 2, .step 2, .step 2]
+    (∀ e ∈ evs, e.noBreak = true) ∧ (∀ j, (cfg j).steal = true → j = 1) ∧
+      (((Sys.init cfg).run (evs.take 12)).lk 1).last = .contention ∧
+      (((Sys.init cfg).run (evs.take 12)).lk 0).held = true ∧
+      (((Sys.init cfg).run evs).lk 1).held = true ∧ (((Sys.init cfg).run evs).lk 1).last = .ok ∧
+      (((Sys.init cfg).run evs).lk 2).last = .contention ∧ ((Sys.init cfg).run evs).breaks = 1 := by
+  refine ⟨by decide, ?_, by decide +kernel, by decide +kernel, by decide +kernel, by decide +kernel,
+    by decide +kernel, by decide +kernel⟩
+  intro j hj
+  simpa using hj
+
+/-- **`confirm`** answers "still held" exactly when `held/info` on disk carries this locker's current
+nonce — in every state, so under every interleaving -/
+theorem confirm_ok_iff_on_disk (id : Nat) (cfg : Nat → Cfg) (crashed : Nat → Bool) (me : Locker)
+    (held : Option Dir) (h : me.pc = .cPeek) :
+    (lstep id cfg crashed me held).1.last = .ok ↔ held = some (some (.ok ⟨id, me.nonce⟩)) := by
+  unfold lstep
+  simp only [h]
+  cases hp : peekDir held with
+  | none =>
+    have : held ≠ some (some (.ok ⟨id, me.nonce⟩)) := by
+      intro hh; simp [hh, peekDir] at hp
+    simp [Locker.done, this]
+  | corrupt t =>
+    have : held ≠ some (some (.ok ⟨id, me.nonce⟩)) := by
+      intro hh; simp [hh, peekDir] at hp
+    simp [Locker.done, this]
+  | ok y =>
+    have hy := peekDir_ok.1 hp
+    by_cases hyy : y = ⟨id, me.nonce⟩
+    · simp [hyy, Locker.done, hy, okDir]
+    · have : held ≠ some (some (.ok ⟨id, me.nonce⟩)) := by
+        intro hh; rw [hy] at hh; simp [okDir] at hh; exact hyy hh
+      simp [hyy, Locker.done, this]
 
 /-- the decision table of `LockHeldInfo.is_lock_holder_known_dead` -/
 theorem known_dead_table (hostEq isLocalhost userEq pidRecorded pidDead : Bool) :
